@@ -26,6 +26,8 @@ Record case := mk_case {
   c_dorc : list dres;                  (* ... and during the dry run (only Begin/Commit can be asked) *)
   (* observed, DryRun *)
   o_dry_log : list ev; o_dry_sql : string; o_dry_vars : list scalar; o_dry_err : bool;
+  o_tosql : string;                    (* what DB.ToSQL returned (ToSQL mode) *)
+  o_explained : string;                (* the dialector's Explain of the statement the dry handle exposes *)
   (* observed, real run from an identical handle on the same data *)
   o_real_log : list ev; o_real_err : bool
 }.
@@ -89,6 +91,8 @@ Definition spec_holds (c : case) : bool :=
   (* no prepare, exec or query in DryRun; nothing at all for ToSQL *)
   forallb is_tx_event (o_dry_log c)
   && match c_mode c with MToSQL => match o_dry_log c with [] => true | _ => false end | _ => true end
+  (* what ToSQL returns is the exposed statement, explained - whatever error the finisher reported *)
+  && match c_mode c with MToSQL => String.eqb (o_tosql c) (o_explained c) | _ => true end
   (* the exposed statement is the first statement the real run sends *)
   && match c_fin c, main_stmt c with
      | FBatch, _ => true           (* several statements, none of them "the" main statement *)
